@@ -35,7 +35,8 @@ def mutants(text):
         if re.fullmatch(r"-?\d+", t):
             alts = [str(int(t) + 1)] + ([str(int(t) - 1)] if int(t) > 0 else [])
         elif re.fullmatch(r"-?\d+\.\d+", t):
-            alts = [str(float(t) + 0.5)]
+            # a visibly different number, and one that differs in the 10th significant digit only
+            alts = [str(float(t) + 0.5), repr(float(t) * (1 + 3e-10) if float(t) else 3e-10)]
         elif t in ("X", "H"):
             alts = ["H" if t == "X" else "X"]
         elif t == "{":
